@@ -50,11 +50,14 @@ def build(pid: str):
 def _build(pid: str):
     info = {"proof_ok": False, "driver_ok": False, "log": "", "assumptions": [], "obligations": 0,
             "theorems": []}
-    rc, out = sh(["/venv/bin/python", os.path.join(HERE, "gen_tables.py")], env=dict(os.environ, PYTHONPATH="/repo/src"))
-    info["log"] += out
-    if rc != 0:
-        info["log"] += "\n[gen_tables failed]\n"
-        info["gen_failed"] = True
+    for gen in ("gen_tables.py", "gen_advances.py", "gen_example.py"):
+        rc, out = sh(["/venv/bin/python", os.path.join(HERE, gen)], env=dict(os.environ, PYTHONPATH="/repo/src"))
+        info["log"] += out
+        if rc != 0:
+            # the model's tables can no longer be regenerated from the source: the theorems would be re-checked against
+            # stale tables, so the tie is broken
+            info["log"] += f"\n[{gen} failed]\n"
+            info["gen_failed"] = (info.get("gen_failed") or "") + f"{gen}: " + out[-1500:] + "\n"
     # driver (model cone) first: needed for the failing-input search even when a proof is broken
     rc, out = sh([os.path.join(VERIF, "build_driver.sh"), "Top/Extract.vo"])
     info["log"] += out
@@ -192,6 +195,10 @@ def main(argv):
     if proof_broken and not any(not v["nofail"] for v in violations):
         rp = write_replay(pid, "proof", {"what": f"proof obligation Properties/{pid}.v no longer checks",
                                          "theorems": info["theorems"], "log": info["log"][-3000:]})
+        violations.append({"replay": rp, "nofail": True})
+    if info.get("gen_failed"):
+        rp = write_replay(pid, "translator", {"what": "the translator could not regenerate the model's tables from /repo/src; "
+                                                      "theorems would be checked against stale tables", "log": info["gen_failed"]})
         violations.append({"replay": rp, "nofail": True})
     if gate:
         rp = write_replay(pid, "gate", {"what": "forbidden declaration in the development", "lines": gate})
